@@ -7,7 +7,8 @@ for f in sorted(glob.glob(os.path.join(V, "seeded", "*", "meta.json"))):
     m = json.load(open(f))
     first = {k: v["exit"] for k, v in m.get("checks_run_first", m.get("checks_run", {})).items()}
     caught = ", ".join(m.get("caught_by", [])) or "-"
-    rows.append((m["id"], m["title"][:110].replace("|", "/"), caught, m.get("note", "")))
+    note = ("missed by " + ", ".join(m["missed_at_first"]) + " at first, see 11.5") if m.get("missed_at_first") else ""
+    rows.append((m["id"], m["title"][:110].replace("|", "/"), caught, note))
 print("| change | what it does | caught by | note |")
 print("|---|---|---|---|")
 for r in rows:
